@@ -4,7 +4,7 @@ cd "$(dirname "$0")/.."
 ./setup.sh >/dev/null 2>&1
 for s in ${SEEDS:-2 3 4 5 6}; do
   for p in C01 C02 C03 C04 C05 C06 C07 C08 C09 C10 C11 C12 C13 C15 C16 C17 C18 C19 C20 C14; do
-    out=$(VERIF_SEED=$s ./check $p --tier quick 2>&1); rc=$?
+    out=$(VERIF_SEED=$s VERIF_SCRATCH_EVIDENCE=1 ./check $p --tier quick 2>&1); rc=$?
     if [ $rc -ne 0 ]; then echo "SEED $s $p exit $rc"; echo "$out" | grep -E "VIOLATION|UNDECIDED|CHECKER" | cut -c1-400 | head -5; fi
   done
   echo "seed $s done"
